@@ -36,7 +36,7 @@ def check(repo, res, tier):
     X.check_update(repo, res)
     X.check_checkjump(repo, res)
     X.check_newjumptimes(repo, res)
-    n = X.check_walks(repo, res)
+    n = X.check_walks(repo, res, tier=tier)
     res.floor("walk scenarios interpreted", n, 15)
     from ..rules.sweep import gate_call_arity
     gate_call_arity(repo, res, {"pygom/model/stochastic_simulation.py", "pygom/model/simulate.py"})
